@@ -369,6 +369,49 @@ def rule_str_to_op(ctx: Ctx) -> None:
             ctx.ok("order.wrapper", m, w, what="per-qubit gates reversed into product order")
         else:
             raise AnalysisError(f"str_to_op: cannot tell the order of the operations packed into `{short(w, 60)}`")
+    # each tuple (name, qubit) becomes <class of that name>(register=<qubit>, reg_type="p"): the index into the class list is exactly the
+    # position of the tuple's name in the name list, the register is the tuple's second component, the conversion gates act on photons
+    name_var = cls_var = None
+    for n in fn.body:
+        if isinstance(n, ast.Assign) and isinstance(n.value, ast.List) and isinstance(n.targets[0], ast.Name):
+            if all(isinstance(e, ast.Constant) for e in n.value.elts):
+                name_var = n.targets[0].id
+            elif all(isinstance(e, ast.Attribute) for e in n.value.elts):
+                cls_var = n.targets[0].id
+    ctor = [c for c in calls_in(fn) if isinstance(c.func, ast.Subscript) and norm(c.func.value) == cls_var]
+    if not ctor:
+        raise AnalysisError("str_to_op: no operation is constructed through the class list")
+    idx_def = {}
+    for a in ast.walk(fn):
+        if isinstance(a, ast.Assign) and len(a.targets) == 1 and isinstance(a.targets[0], ast.Name):
+            idx_def.setdefault(a.targets[0].id, []).append(a)
+    for c in ctor:
+        ix = c.func.slice
+        if isinstance(ix, ast.Name):
+            defs = [a for a in idx_def.get(ix.id, []) if a.lineno < c.lineno]
+            if not defs:
+                raise AnalysisError(f"str_to_op: index `{ix.id}` of the class list is not bound before `{short(c, 50)}`")
+            ix = max(defs, key=lambda a: a.lineno).value
+        why = None
+        subj = None
+        if isinstance(ix, ast.Call) and call_attr(ix) == "index" and norm(ix.func.value) == name_var and len(ix.args) == 1 and \
+                isinstance(ix.args[0], ast.Subscript) and norm(ix.args[0].slice) == "0":
+            subj = norm(ix.args[0].value)
+        else:
+            why = f"the class is chosen by `{short(ix)}`, not by the position of the tuple's name in the name list"
+        if why is None:
+            from ..core import get_kw
+            r_, t_ = get_kw(c, "register"), get_kw(c, "reg_type")
+            if r_ is None and c.args:
+                r_ = c.args[0]
+            if r_ is None or norm(r_) != f"{subj}[1]":
+                why = f"the operation's register is `{short(r_) if r_ is not None else 'missing'}`, not the qubit index `{subj}[1]` of the tuple"
+            elif not (isinstance(t_, ast.Constant) and t_.value == "p"):
+                why = f"the operation acts on reg_type `{short(t_) if t_ is not None else 'default'}`; conversion gates are applied to photons ('p')"
+        if why:
+            ctx.fail("vocab.gates", m, c, f"str_to_op: `{short(c, 70)}`: {why}", func="str_to_op", construct=f"str_to_op: constructor: {why[:50]}")
+        else:
+            ctx.ok("vocab.gates", m, c, what="tuple (name, qubit) -> class at the name's position, register = qubit, photon register")
     handled = set(names)
     tables.rule_vocab(ctx, "vocab.gates",
                       [(LCC, "lc_check"), (LCC, "converter_gate_list"), (SRC, "state_to_graph"), (SRC, "_phase_correction")],
@@ -395,6 +438,8 @@ def _edit_dedup_helper(src: str) -> str:
 
 
 KNOCKOUTS = [
+    Knockout("str-to-op-on-emitters", LCC, sub_once('operations_list.append(ops_list[op_index](register=gate[1], reg_type="p"))', 'operations_list.append(ops_list[op_index](register=gate[1], reg_type="e"))'), "vocab.gates", "photons"),
+    Knockout("str-to-op-index-shifted", LCC, sub_once("            op_index = name_list.index(gate[0])", "            op_index = name_list.index(gate[0]) - 1"), "vocab.gates", "position"),
     Knockout("str-to-op-wrapper-application-order", LCC, sub_once("        operations_list = []\n        for gate in gate_tuples:\n            op_index = name_list.index(gate[0])\n            operations_list.append(ops_list[op_index](register=gate[1], reg_type=\"p\"))\n", "        per_qubit = {}\n        for gate in gate_tuples:\n            per_qubit.setdefault(gate[1], []).append(ops_list[name_list.index(gate[0])])\n        operations_list = [ops.OneQubitGateWrapper(gs, register=q, reg_type=\"p\") for q, gs in per_qubit.items()]\n"), "order.wrapper", "application order"),
     Knockout("dedup-helper-result-from-unfiltered", ATS, _edit_dedup_helper, "dedup.covers-all", "unfiltered"),
     Knockout("relabel-map-swapped", "graphiq/utils/relabel_module.py", sub_once("    GM = isomorphism.GraphMatcher(g1, g2)", "    GM = isomorphism.GraphMatcher(g2, g1)"), "relabel.map-direction", "swapped"),
